@@ -134,7 +134,22 @@ impl Style {
 /// Check if text can validly represent the given style
 pub fn can_match_style(text: &str, style: Style) -> bool {
     let constraints = style.constraints();
-    check_case_constraint(text, constraints.case) && check_separator_constraints(text, &constraints)
+    // The title pattern holds per word: "Old Name" is Title Case (and Train-Case with '-'),
+    // "Old name" is Sentence case; a single word is both
+    let case_ok = match (style, constraints.separator) {
+        (Style::Title | Style::Train, Some(sep)) => text
+            .split(sep)
+            .all(|word| check_case_constraint(word, CaseConstraint::TitlePattern)),
+        (Style::Sentence, Some(sep)) => {
+            let mut words = text.split(sep);
+            words
+                .next()
+                .is_some_and(|word| check_case_constraint(word, CaseConstraint::TitlePattern))
+                && words.all(|word| check_case_constraint(word, CaseConstraint::AllLowercase))
+        },
+        _ => check_case_constraint(text, constraints.case),
+    };
+    case_ok && check_separator_constraints(text, &constraints)
 }
 
 /// Pre-compute which styles each variant can match
